@@ -6,9 +6,7 @@ package linkedhashmap
 
 import (
 	"bytes"
-	"cmp"
 	"encoding/json"
-	"slices"
 
 	"github.com/emirpasic/gods/v2/containers"
 )
@@ -69,22 +67,24 @@ func (m *Map[K, V]) FromJSON(data []byte) error {
 		return err
 	}
 
-	index := make(map[K]int)
+	// recover the order of the keys from the document itself
 	var keys []K
-	for key := range elements {
-		keys = append(keys, key)
-		esc, _ := json.Marshal(key)
-		index[key] = bytes.Index(data, esc)
+	decoder := json.NewDecoder(bytes.NewReader(data))
+	if token, _ := decoder.Token(); token == json.Delim('{') {
+		for decoder.More() {
+			token, _ := decoder.Token()
+			name, _ := json.Marshal(token)
+			var value json.RawMessage
+			decoder.Decode(&value)
+			var single map[K]json.RawMessage
+			json.Unmarshal([]byte("{"+string(name)+":null}"), &single)
+			for key := range single {
+				keys = append(keys, key)
+			}
+		}
 	}
-
-	byIndex := func(key1, key2 K) int {
-		return cmp.Compare(index[key1], index[key2])
-	}
-
-	slices.SortFunc(keys, byIndex)
 
 	m.Clear()
-
 	for _, key := range keys {
 		m.Put(key, elements[key])
 	}
